@@ -2353,7 +2353,7 @@ theorem shouldRerun_true (g : Graph) (s : State) (n w : Nat) (h : shouldRerun g 
   · simp [c1, c2, c3, c4, c5] at h
   by_cases c6 : (g.node n).maxTries.getD 1 < 0
   · simp [c1, c2, c3, c4, c5, c6] at h
-  simp only [c1, c2, c3, c4, c5, c6, Bool.false_eq_true, if_false, if_true, Bool.not_true] at h
+  simp only [c1, c2, c3, c4, c5, c6, Bool.false_eq_true, if_false, Bool.not_true] at h
   generalize (if (g.node n).sets.isEmpty = true then sharedResults g s n
     else sharedFilteredResults g s n (match (s.nd n).started with | some v => some v | none => some w)) = rs at h ⊢
   repeat' (split at h)
